@@ -358,6 +358,31 @@ pub enum Op {
     WriteFirst(u8),
     ExtendByte(u8),
     Swap01,
+    /// a tendril of exactly n ASCII bytes (length ladder; prefix-only)
+    MakeN(u8, u32),
+}
+
+/// lengths on and next to the inline limit and every power of two (buffer growth boundaries)
+pub fn ladder(thorough: bool) -> Vec<u32> {
+    let mut v: Vec<u32> = (0..=40).collect();
+    for k in 4..=if thorough { 16 } else { 11 } {
+        let p = 1u32 << k;
+        for d in [-13i64, -12, -9, -8, -1, 0, 1, 4] {
+            v.push((p as i64 + d) as u32);
+        }
+    }
+    v.sort();
+    v.dedup();
+    v
+}
+
+pub fn ladder_prefixes(n: u32) -> Vec<Vec<Op>> {
+    vec![
+        vec![Op::MakeN(0, n)],
+        vec![Op::MakeN(0, n), Op::CloneTo(0, 1)],
+        vec![Op::MakeN(0, n), Op::PopFront(0, 0)],
+        vec![Op::MakeN(0, n), Op::Reserve(0), Op::CloneTo(0, 1)],
+    ]
 }
 
 pub fn alphabet<F: FmtX>() -> Vec<Op> {
@@ -483,6 +508,19 @@ impl<F: FmtX, A: Atomicity> Pool<F, A> {
                             bad!("rejected-valid", "try_from_byte_slice rejected {lit:?}");
                         }
                     },
+                }
+            },
+            Op::MakeN(s, n) => {
+                let lit: Vec<u8> = (0..n).map(|i| b'a' + (i % 23) as u8).collect();
+                match real!(Tendril::<F, A>::try_from_byte_slice(&lit)) {
+                    Err(p) => bad!("panic", "try_from_byte_slice({n} bytes) panicked: {p}"),
+                    Ok(Ok(t)) => {
+                        mon.enter();
+                        self.real[s as usize] = Some(t);
+                        mon.leave();
+                        self.model[s as usize] = Some(lit);
+                    },
+                    Ok(Err(())) => bad!("rejected-valid", "try_from_byte_slice rejected {n} ASCII bytes"),
                 }
             },
             Op::PushBytes(s, l) => {
@@ -937,6 +975,7 @@ pub fn explore<F: FmtX, A: Atomicity>(
     aname: &str,
     depth: usize,
     wdepth: usize,
+    ladder_depth: usize,
     mon: &(dyn Monitor),
     cnt: &Counters,
 ) -> serde_json::Value {
@@ -981,9 +1020,21 @@ pub fn explore<F: FmtX, A: Atomicity>(
         cnt.shapes.lock().unwrap().extend(sh);
     });
     let e2 = cnt.execs.load(Ordering::Relaxed);
+    // job 3: length ladder (all ops x all ops after a tendril of every ladder length, in four representations)
+    let lad = if ladder_depth > 0 { ladder(ctx.tier == Tier::Thorough) } else { vec![] };
+    let ltasks: Vec<(u32, usize)> = lad.iter().flat_map(|&n| (0..4usize).map(move |p| (n, p))).collect();
+    ltasks.par_iter().for_each(|&(n, p)| {
+        let mut sh = BTreeSet::new();
+        let pre = &ladder_prefixes(n)[p];
+        let mut seq = vec![];
+        dfs::<F, A>(ctx, &job, &ops, pre, &mut seq, ladder_depth, mon, cnt, &mut sh);
+        cnt.shapes.lock().unwrap().extend(sh);
+    });
+    let e3 = cnt.execs.load(Ordering::Relaxed);
     json!({
         "job": job, "alphabet": ops.len(), "depth": depth, "witness_prefixes": ws.len(), "witness_depth": wdepth,
         "sequences_from_empty": e1 - e0, "sequences_from_witnesses": e2 - e1,
+        "ladder_lengths": lad.len(), "ladder_depth": ladder_depth, "sequences_from_ladder": e3 - e2,
         "secs": (t0.elapsed().as_secs_f64() * 100.0).round() / 100.0,
     })
 }
@@ -995,13 +1046,14 @@ pub fn run_all(ctx: &Ctx, mon: &dyn Monitor, depth: usize, wdepth: usize, small_
         shapes: Mutex::new(BTreeSet::new()),
     };
     let mut jobs = vec![];
-    jobs.push(explore::<fmt::UTF8, NonAtomic>(ctx, "NonAtomic", depth, wdepth, mon, &cnt));
-    jobs.push(explore::<fmt::Bytes, NonAtomic>(ctx, "NonAtomic", depth, wdepth, mon, &cnt));
-    jobs.push(explore::<fmt::UTF8, Atomic>(ctx, "Atomic", small_depth, wdepth.min(small_depth), mon, &cnt));
-    jobs.push(explore::<fmt::Bytes, Atomic>(ctx, "Atomic", small_depth, wdepth.min(small_depth), mon, &cnt));
-    jobs.push(explore::<fmt::WTF8, NonAtomic>(ctx, "NonAtomic", small_depth, wdepth.min(small_depth), mon, &cnt));
-    jobs.push(explore::<fmt::ASCII, NonAtomic>(ctx, "NonAtomic", small_depth, wdepth.min(small_depth), mon, &cnt));
-    jobs.push(explore::<fmt::Latin1, NonAtomic>(ctx, "NonAtomic", small_depth, wdepth.min(small_depth), mon, &cnt));
+    let ld = if ctx.tier == Tier::Thorough { 2 } else { 2 };
+    jobs.push(explore::<fmt::UTF8, NonAtomic>(ctx, "NonAtomic", depth, wdepth, ld, mon, &cnt));
+    jobs.push(explore::<fmt::Bytes, NonAtomic>(ctx, "NonAtomic", depth, wdepth, ld, mon, &cnt));
+    jobs.push(explore::<fmt::UTF8, Atomic>(ctx, "Atomic", small_depth, wdepth.min(small_depth), 1, mon, &cnt));
+    jobs.push(explore::<fmt::Bytes, Atomic>(ctx, "Atomic", small_depth, wdepth.min(small_depth), 1, mon, &cnt));
+    jobs.push(explore::<fmt::WTF8, NonAtomic>(ctx, "NonAtomic", small_depth, wdepth.min(small_depth), 1, mon, &cnt));
+    jobs.push(explore::<fmt::ASCII, NonAtomic>(ctx, "NonAtomic", small_depth, wdepth.min(small_depth), 1, mon, &cnt));
+    jobs.push(explore::<fmt::Latin1, NonAtomic>(ctx, "NonAtomic", small_depth, wdepth.min(small_depth), 1, mon, &cnt));
     (jobs, cnt)
 }
 
@@ -1043,7 +1095,13 @@ pub fn replay_with(ctx: &Ctx, witness: &str, mon: &dyn Monitor) {
             let seq: Vec<Op> = rest
                 .split("; ")
                 .filter(|s| !s.is_empty())
-                .map(|s| *all.iter().find(|o| format!("{o:?}") == s).unwrap_or_else(|| machinery(&format!("unknown op {s}"))))
+                .map(|s| {
+                    if let Some(r) = s.strip_prefix("MakeN(") {
+                        let mut it = r.trim_end_matches(')').split(", ");
+                        return Op::MakeN(it.next().unwrap().parse().unwrap(), it.next().unwrap().parse().unwrap());
+                    }
+                    *all.iter().find(|o| format!("{o:?}") == s).unwrap_or_else(|| machinery(&format!("unknown op {s}")))
+                })
                 .collect();
             let cnt = Counters { execs: AtomicU64::new(0), ops: AtomicU64::new(0), shapes: Mutex::new(BTreeSet::new()) };
             let mut sh = BTreeSet::new();
